@@ -350,6 +350,32 @@ def run(ctx):
     rets = [norm(n.value) for n in own_nodes(f.node) if isinstance(n, ast.Return) and n.value is not None]
     ctx.check(rets == ["self._worker_id_to_owned_trial_id.get(self.worker_id)"], "R04.4", f.short, "owned-lookup",
               message=f"owned_trial_id returns {rets}", how="map.get(self.worker_id)")
+    # the claim protocol tells workers apart by `worker_id` alone: two concurrent workers with one id both see the
+    # other's claim as their own. The id must therefore separate (a) storage objects - a random prefix chosen per
+    # object and chosen again after unpickling, (b) processes that share an object through fork - the process id,
+    # (c) threads sharing an object - the thread identifier.
+    f = rcls.methods.get("worker_id")
+    ctx.require(f is not None, "R04.4: JournalStorageReplayResult.worker_id vanished")
+    rexprs = [n.value for n in own_nodes(f.node) if isinstance(n, ast.Return) and n.value is not None]
+    ctx.require(rexprs, "R04.4: worker_id returns nothing")
+    wdefs = single_defs(f.node)
+    for src, why in (("self._worker_id_prefix", "storage objects (separate processes / hosts, unpickled copies)"),
+                     ("os.getpid()", "a forked child and its parent, which share the prefix and the main thread's identifier"),
+                     ("threading.get_ident()", "threads sharing one storage object")):
+        ok = all(src in norm(resolve(e, wdefs)) for e in rexprs)
+        ctx.check(ok, "R04.4", f.short, f"worker-id-covers:{src}",
+                  message=f"worker_id does not include {src}: it does not tell apart {why}; both would read the other's RUNNING claim as "
+                          f"their own, so a queued trial is claimed twice or by nobody",
+                  how="the returned expression contains the per-object prefix, os.getpid() and threading.get_ident()")
+    jc = p.cls(JOURNAL)
+    for mname in ("__init__", "__setstate__"):
+        mf = jc.methods.get(mname)
+        ctx.require(mf is not None, f"R04.4: JournalStorage.{mname} vanished")
+        asg = [n for n in own_nodes(mf.node) if isinstance(n, ast.Assign) and any(self_attr(t) == "_worker_id_prefix" for t in n.targets)]
+        ok = bool(asg) and all(any(isinstance(c, ast.Call) and (dotted(c.func) or "").endswith("uuid4") for c in ast.walk(a.value)) for a in asg)
+        ctx.check(ok, "R04.4", mf.short, "worker-id-prefix-fresh",
+                  message=f"JournalStorage.{mname} does not draw a fresh random worker-id prefix: two storage objects (or an object and its unpickled copy) "
+                          f"would share worker ids", how="self._worker_id_prefix = <uuid4-based>")
     f = p.cls(JOURNAL).methods.get("set_trial_state_values")
     ctx.require(f is not None, "R04.4: JournalStorage.set_trial_state_values vanished")
     g = CFG(f.node, name=f.qualname)
